@@ -1,6 +1,6 @@
 (* C12_check.v — case types, model runners and executable property for the C12 correspondence:
    plugin-level ValidateObservation verdicts of the commit and the execute plugin. *)
-Require Export Verif.Model.Base Verif.Model.Roles.
+Require Export Verif.Model.Base Verif.Model.Roles Verif.Check.RolesHist_check.
 Require Import Verif.Proofs.RolesP.
 
 (* Round context: the harness takes the verdict in every kind of round.  Of the context only the retry flag of the
@@ -39,3 +39,24 @@ Definition ev_ok (i : ev_in) (v : bool) : bool :=
 Definition ev_known (i : ev_in) : N :=
   let '(g, c, o, ob) := i in known_code (bad_fields g o (efields g (strip_ed (ectx_disc c) ob))).
 Definition ev_judge := judge ev_model Bool.eqb ev_ok ev_known.
+
+(* ---- sinks C12_commit_hist / C12_exec_hist: verdicts of long-lived plugins (one per oracle) on real home-chain pollers
+   while the CCIPHome configuration changes between rounds.  Input: (history context, round input without the role
+   configuration).  Model: the verdict on the role map read off the poller's state machine after the poll results of the
+   context; property and known class: on the configuration of the most recent successful poll alone. ---- *)
+Definition cvh_in := (hctx * (cctx * bool * N * cobs))%type.
+Definition cvh_at (g : cfg) (x : cvh_in) : cv_in := let '(c, retry, o, ob) := snd x in (g, c, retry, o, ob).
+Definition cvh_model (x : cvh_in) : bool := cv_model (cvh_at (hctx_model (fst x)) x).
+Definition cvh_ok (x : cvh_in) (v : bool) : bool := cv_ok (cvh_at (hctx_spec (fst x)) x) v.
+Definition cvh_known (x : cvh_in) : N := cv_known (cvh_at (hctx_spec (fst x)) x).
+Definition cvh_judge := judge cvh_model Bool.eqb cvh_ok cvh_known.
+
+Definition evh_in := (hctx * (ectx * N * eobs))%type.
+Definition evh_at (g : cfg) (x : evh_in) : ev_in := let '(c, o, ob) := snd x in (g, c, o, ob).
+Definition evh_model (x : evh_in) : bool := ev_model (evh_at (hctx_model (fst x)) x).
+Definition evh_ok (x : evh_in) (v : bool) : bool := ev_ok (evh_at (hctx_spec (fst x)) x) v.
+Definition evh_known (x : evh_in) : N := ev_known (evh_at (hctx_spec (fst x)) x).
+Definition evh_judge := judge evh_model Bool.eqb evh_ok evh_known.
+
+(* the API sink of the history parts (judge shared with the other roles property) *)
+Definition api_judge := Verif.Check.RolesHist_check.api_judge.
